@@ -108,3 +108,18 @@ package builtins
 //@ props C19
 //@ trusted callpre
 //@ callpre[C19.gzip.whole] ReadAll: typeof(arg0) == *gzip.Reader
+
+// C19, the "urlquery" codec: both directions are Go's query escaping - encode answers url.QueryEscape of the string,
+// decode url.QueryUnescape - the pair Go documents as inverse. (Seed C19h encoded with url.PathEscape, which leaves
+// `+` alone, while decode still turned every `+` into a space: decode(encode("a+b")) == "a b".)
+//@ func encodeUrlQuery
+//@ props C19
+//@ safety
+//@ requires obj != nil && ref(obj) != nil
+//@ ensures[C19.codec.urlquery.enc] typeof(obj) == *object.String ==> typeof(result) == *object.String && ref(result) != nil && result.(*object.String).value == uf("ext:net/url.QueryEscape", string, obj.(*object.String).value)
+
+//@ func decodeUrlQuery
+//@ props C19
+//@ safety
+//@ requires obj != nil && ref(obj) != nil
+//@ ensures[C19.codec.urlquery.dec] typeof(obj) == *object.String && typeof(result) == *object.String ==> result.(*object.String).value == uf("ext:net/url.QueryUnescape", string, obj.(*object.String).value)
